@@ -17,25 +17,124 @@ import Sqfs.Proofs.C10Data
 namespace Sqfs.C10
 open Sqfs.MetaReader Sqfs.Consts Sqfs.C10P
 
+/-! ### fixtures for the instantiating examples that follow the theorems
+
+The toy codec of the harness with the proof that it meets the contract `CodecOK`, and the small images the examples
+run on (metadata blocks stored uncompressed; `bad` marks positions that answer with an I/O error). -/
+
+/-- the toy codec of the harness meets the contract -/
+theorem toyUnc_ok : CodecOK toyUnc := by
+  constructor
+  · intro x n out h
+    unfold toyUnc at h
+    split at h
+    · split at h
+      · cases h; assumption
+      · cases h
+    · split at h
+      · cases h; simpa using ‹_›
+      · cases h
+    · simp only at h
+      split at h
+      · cases h; simpa using ‹_›
+      · cases h
+    · cases h
+  · intro x n e h
+    unfold toyUnc at h
+    split at h
+    · split at h
+      · cases h
+      · cases h; decide
+    · split at h
+      · cases h
+      · cases h; decide
+    · simp only at h
+      split at h
+      · cases h
+      · cases h; decide
+    · cases h; decide
+
+/-- block A "abcd" at 0, block B "xy" at 6 (both stored uncompressed) -/
+private def exFile : File :=
+  { size := 10, byte := fun i => ([0x04, 0x80, 0x61, 0x62, 0x63, 0x64, 0x02, 0x80, 0x78, 0x79] : List UInt8).getD i 0,
+    bad := fun _ => false }
+/-- the same with an I/O error at byte 8 (inside block B's payload) -/
+private def badFile : File := { exFile with bad := fun i => i == 8 }
+private def exOps : List Op := [.seek 0 0, .seek 6 3, .read 2, .pos]
+
+/-- inode table at 0: one raw block with a FIFO inode (reference 0) and the root directory inode (reference 20);
+directory table at 54: one raw block with the listing `a -> FIFO` -/
+private def exImg : File :=
+  { size := 77,
+    byte := fun i => ([0x34, 0x80,
+      0x06, 0x00, 0xA4, 0x01, 0, 0, 0, 0, 0, 0, 0, 0, 0x02, 0, 0, 0, 0x01, 0, 0, 0,
+      0x01, 0x00, 0xED, 0x01, 0, 0, 0, 0, 0, 0, 0, 0, 0x01, 0, 0, 0, 0, 0, 0, 0, 0x02, 0, 0, 0, 0x18, 0, 0, 0, 0, 0, 0, 0,
+      0x15, 0x80,
+      0, 0, 0, 0, 0, 0, 0, 0, 0x02, 0, 0, 0, 0, 0, 0, 0, 0x06, 0, 0, 0, 0x61] : List UInt8).getD i 0,
+    bad := fun _ => false }
+
+private def exDir : DirRd := { inodeStart := 0, dirStart := 54, rootRef := 20, blockSize := 4096 }
+private def exWin : Nat → Nat × Nat := fun k => if k = 0 then (0, 54) else (54, 77)
+/-- histories with failures: `meta_inode` was sent to a bad offset, `meta_dir` into the middle of the listing -/
+private def exHist : Nat → List Op := fun k => if k = 0 then [.seek 0 0, .seek 0 100, .read 3] else [.seek 54 3, .read 50]
+
+/-- key/value block at 0: the value record "vv", key `user.k` whose value is out of line (reference 0 = that
+record), key `user.j` with the inline value "w" -/
+private def exKv : File :=
+  { size := 35,
+    byte := fun i => ([0x21, 0x80,
+      0x02, 0, 0, 0, 0x76, 0x76,
+      0x00, 0x01, 0x01, 0x00, 0x6b,  0x08, 0, 0, 0,  0, 0, 0, 0, 0, 0, 0, 0,
+      0x00, 0x00, 0x01, 0x00, 0x6a,  0x01, 0, 0, 0, 0x77] : List UInt8).getD i 0,
+    bad := fun _ => false }
+
+private def exXr : XR := { loaded := true, xattrStart := 0, xattrEnd := 35, numIds := 0, idBlockStarts := [] }
+/-- both readers over the whole image; the key/value reader stands right behind the key `user.k` -/
+private def exS : Readers := fun k => if k = 1 then (seek true exKv toyUnc (fresh 0 35) 0 11).2 else fresh 0 35
+
+/-- a written file of 19 bytes with block size 8: a raw block at 0, a compressed block at 8 (`03 08 00 55`: eight
+times `55`), and a 3-byte tail at offset 1 of the raw 5-byte fragment block at 12 -/
+private def exData : File :=
+  { size := 17, byte := fun i => ([1, 2, 3, 4, 5, 6, 7, 8, 3, 8, 0, 0x55, 0xa0, 0xa1, 0xa2, 0xa3, 0xa4] : List UInt8).getD i 0,
+    bad := fun _ => false }
+private def exIno : DataReader.Inode := { fileSize := 19, blocksStart := 0, fragIdx := 0, fragOff := 1, blocks := [16777224, 4] }
+private def exTbl : List (Nat × Nat) := [(12, 16777221)]
+/-- the same with an I/O error inside the first data block / inside the fragment block -/
+private def badData : File := { exData with bad := fun i => i == 2 }
+private def badFrag : File := { exData with bad := fun i => i == 13 }
+private def inoFragOnly : DataReader.Inode := { fileSize := 3, blocksStart := 0, fragIdx := 0, fragOff := 1, blocks := [] }
+private def ino2 : DataReader.Inode := { fileSize := 8, blocksStart := 0, fragIdx := 4294967295, fragOff := 0, blocks := [16777224] }
+/-- a history with positional reads, `get_fragment`, a stream call and a fragment-table reload -/
+private def exDOps : List DataReader.OpX :=
+  [.read exIno 0 19, .frag exIno, .sget (DataReader.streamOpen 8 exIno) 3, .reload (.ok exTbl), .read ino2 3 20]
+
+
 /-- a freshly created reader is coherent -/
 theorem coherent_init (f : File) (unc : Codec) (start limit : Nat) (hl : limit ≤ NONE) :
     Coherent f unc (fresh start limit) := fresh_coherent f unc start limit hl
+example := coherent_init exFile toyUnc 0 10 (by decide)
 
 /-- `sqfs_meta_reader_seek` keeps the cache coherent — when it succeeds and on **every** failure path
 (window check, cache hit with a bad offset, header read error, bad size word, block past the limit, payload
 read error, decompression failure, offset beyond the freshly loaded block) -/
 theorem coherent_seek (f : File) (unc : Codec) (hc : CodecOK unc) (m : MR) (hm : Coherent f unc m) (b o : Nat) :
     Coherent f unc (seek true f unc m b o).2 := seek_coherent hc hm b o
+-- a seek that fails with an I/O error in the payload of block B
+example := coherent_seek badFile toyUnc toyUnc_ok _ (coherent_init badFile toyUnc 0 10 (by decide)) 6 0
 
 /-- `sqfs_meta_reader_read` keeps the cache coherent (whether or not it crosses into following blocks, and
 whether or not one of the implied seeks fails) -/
 theorem coherent_read (f : File) (unc : Codec) (hc : CodecOK unc) (m : MR) (hm : Coherent f unc m) (n : Nat) :
     Coherent f unc (read true f unc m n).2.2 := read_coherent hc hm n
+-- a read that crosses from block A into block B
+example := coherent_read exFile toyUnc toyUnc_ok _
+  (coherent_seek exFile toyUnc toyUnc_ok _ (coherent_init exFile toyUnc 0 10 (by decide)) 0 2) 4
 
 /-- every object reachable from a fresh reader by any history of calls is coherent -/
 theorem coherent_run (f : File) (unc : Codec) (hc : CodecOK unc) (start limit : Nat) (hl : limit ≤ NONE)
     (h : List Op) : Coherent f unc (run true f unc (fresh start limit) h) :=
   (run_coherent hc h _ (fresh_coherent f unc start limit hl)).1
+example := coherent_run badFile toyUnc toyUnc_ok 0 10 (by decide) exOps
 
 /-- **Main theorem (metadata reader).**  After *any* history the answer to a query — `seek(b,o)`, the reads
 `ns` in order up to the first failure, the final position — is the answer a freshly created reader gives:
@@ -59,12 +158,19 @@ theorem meta_history_independent (f : File) (unc : Codec) (hc : CodecOK unc) (st
       (seek_coherent hc (fresh_coherent f unc start limit hl) b o)]
   · simp only [hst, ne_eq, not_false_eq_true, if_true]
 
+-- on the damaged file: the answer contains a failing read
+example := meta_history_independent badFile toyUnc toyUnc_ok 0 10 (by decide) exOps 0 0 [2, 2, 1]
+example : (answer true badFile toyUnc (fresh 0 10) 0 0 [2, 2, 1]).reads.length = 3 ∧
+    ((answer true badFile toyUnc (fresh 0 10) 0 0 [2, 2, 1]).reads.map (·.1 == 0)) = [true, true, false] := by
+  decide +kernel
+
 /-- two histories, same query: same answer (the form in which the property is usually quoted) -/
 theorem meta_answer_depends_on_image_and_query_only (f : File) (unc : Codec) (hc : CodecOK unc)
     (start limit : Nat) (hl : limit ≤ NONE) (h₁ h₂ : List Op) (b o : Nat) (ns : List Nat) :
     answer true f unc (run true f unc (fresh start limit) h₁) b o ns =
     answer true f unc (run true f unc (fresh start limit) h₂) b o ns := by
   rw [meta_history_independent f unc hc start limit hl h₁, meta_history_independent f unc hc start limit hl h₂]
+example := meta_answer_depends_on_image_and_query_only exFile toyUnc toyUnc_ok 0 10 (by decide) exOps [.seek 6 0] 0 0 [2, 2, 1]
 
 /-- In the repaired code `data_used - offset` never wraps and no copy leaves `m->data` (D3 is closed by the
 repair of D2): whatever the history, a `read` returns a real status, never the model's "out of the buffer"
@@ -73,6 +179,7 @@ theorem read_no_crash (f : File) (unc : Codec) (hc : CodecOK unc) (start limit :
     (h : List Op) (n : Nat) :
     (read true f unc (run true f unc (fresh start limit) h) n).1 < crashSt :=
   readLoop_no_crash hc n _ n [] (coherent_run f unc hc start limit hl h) (Nat.le_refl n)
+example := read_no_crash exFile toyUnc toyUnc_ok 0 10 (by decide) exOps 5
 
 /-- a failed cache-miss seek leaves the reader unpositioned: nothing is readable until the next successful
 seek (`data_used = offset = 0`, both block numbers invalid) -/
@@ -91,9 +198,16 @@ theorem failed_miss_unpositions (f : File) (unc : Codec) (m : MR) (b o : Nat)
     · simp only [ho, if_true]; exact ⟨trivial, trivial, trivial, trivial⟩
     · simp only [ho, if_false] at hfail; exact absurd rfl hfail
 
+/-- instances: (1) cache miss on block B whose payload answers with an I/O error, from a fresh reader; (2) cache miss on
+block B from a reader positioned in block A, with an offset beyond the freshly loaded block -/
+example := failed_miss_unpositions badFile toyUnc (fresh 0 10) 6 0 (by decide) (by decide) (by decide +kernel)
+example := failed_miss_unpositions exFile toyUnc (seek true exFile toyUnc (fresh 0 10) 0 0).2 6 3
+  (by decide +kernel) (by decide +kernel) (by decide +kernel)
+
 /-- after a successful seek, `get_position` reports the position asked for -/
 theorem seek_then_position (f : File) (unc : Codec) (hc : CodecOK unc) (m : MR) (b o : Nat)
     (h : (seek true f unc m b o).1 = 0) : getPos (seek true f unc m b o).2 = (b, o) := seek_getPos hc h
+example := seek_then_position exFile toyUnc toyUnc_ok (fresh 0 10) 6 1 (by decide +kernel)
 
 /-! ### Part 2: the data reader (`lib/sqfs/src/data_reader.c`)
 
@@ -110,6 +224,7 @@ object beyond `block_size`: `DataReader.getBlockApi` has no reader argument. -/
 /-- a freshly created data reader (after `load_fragment_table`) is coherent -/
 theorem data_coherent_init (kw : Bool) (f : File) (unc : Codec) (sw : Nat → Nat) (bs : Nat) (tbl : List (Nat × Nat)) :
     DataReader.DCoh kw f unc sw (DataReader.fresh bs tbl) := DataReader.fresh_dcoh kw f unc sw bs tbl
+example := data_coherent_init true exData toyUnc (fun _ => 0) 8 exTbl
 
 /-- `sqfs_data_reader_read` keeps both caches coherent, on success and on every failure path, and its answer
 is the answer of the cacheless reference reader -/
@@ -118,12 +233,17 @@ theorem data_coherent_read (kw : Bool) (f : File) (unc : Codec) (sw : Nat → Na
     DataReader.DCoh kw f unc sw (DataReader.read kw f unc d ino o n).2 ∧
     (DataReader.read kw f unc d ino o n).1 = DataReader.readSpec f unc d.blockSize d.tbl ino o n :=
   ⟨(DataReader.read_spec hc hd ino hi o n).2.1, (DataReader.read_spec hc hd ino hi o n).1⟩
+example := data_coherent_read true exData toyUnc (fun _ => 0) toyUnc_ok _
+  (data_coherent_init true exData toyUnc (fun _ => 0) 8 exTbl) exIno (fun _ _ => Or.inl rfl) 3 12
 
 /-- every data reader reachable by a history is coherent -/
 theorem data_coherent_run (kw sfix : Bool) (f : File) (unc : Codec) (sw : Nat → Nat) (hc : CodecOK unc) (bs : Nat)
     (tbl : List (Nat × Nat)) (h : List DataReader.OpX) (hh : DataReader.OpsCons kw sw h) :
     DataReader.DCoh kw f unc sw (DataReader.runX kw sfix f unc (DataReader.fresh bs tbl) h) :=
   (DataReader.run_dcoh hc sfix h _ (DataReader.fresh_dcoh kw f unc sw bs tbl) hh).1
+-- `OpsCons` discharged for a five-call history (for `kw = true` every inode is consistent)
+example := data_coherent_run true false exData toyUnc (fun _ => 0) toyUnc_ok 8 exTbl exDOps
+  (by intro op _; cases op <;> first | exact (fun _ _ => Or.inl rfl) | trivial)
 
 /-- **Main theorem (data reader).**  After any history, each entry point that goes through a cache answers
 what its cacheless reference computes from the image, the fragment table currently loaded and the query alone:
@@ -145,6 +265,9 @@ theorem data_api_eq_cacheless (kw sfix : Bool) (f : File) (unc : Codec) (sw : Na
     rw [hb'] at this; exact this
   · have := (DataReader.streamGet_spec hc sfix hd s).1
     rw [hb'] at this; exact this
+
+example := data_api_eq_cacheless true false exData toyUnc (fun _ => 0) toyUnc_ok 8 exTbl exDOps
+  (by intro op _; cases op <;> first | exact (fun _ _ => Or.inl rfl) | trivial)
 
 /-- the code as it is (cache keyed by location and size word): **history independence on every image**, damaged
 ones included, for arbitrary inodes and streams: a used reader answers like a reader created now (which loads the
@@ -168,6 +291,8 @@ theorem data_history_independent (sfix : Bool) (f : File) (unc : Codec) (hc : Co
   · rw [h2 ino]; exact ((DataReader.getFragment_spec hc hF ino).1).symm
   · rw [h3 s]; exact ((DataReader.streamGet_spec hc sfix hF s).1).symm
 
+example := data_history_independent false exData toyUnc toyUnc_ok 8 exTbl exDOps
+
 /-- the code before 36fa767 (cache keyed by location only), on images whose inodes are consistent with one
 location ↦ size word function (kept for the record: D21) -/
 theorem data_history_independent_written (f : File) (unc : Codec) (sw : Nat → Nat) (hc : CodecOK unc)
@@ -179,6 +304,16 @@ theorem data_history_independent_written (f : File) (unc : Codec) (sw : Nat → 
   intro D
   rw [h1 ino o n hi]
   exact ((DataReader.read_spec hc (DataReader.fresh_dcoh false f unc sw bs D.tbl) ino hi o n).1).symm
+
+-- old code (`kw = false`): every inode of the history names location 0 with the size word `sw 0`
+example := data_history_independent_written exData toyUnc (fun _ => 16777224) toyUnc_ok 8 exTbl
+  [.read ino2 0 8, .frag exIno, .read ino2 3 2]
+  (by
+    have c2 : DataReader.ConsIno false (fun _ => 16777224) ino2 := by unfold DataReader.ConsIno DataReader.Cons; decide
+    intro op h
+    simp only [List.mem_cons, List.not_mem_nil, or_false] at h
+    rcases h with rfl | rfl | rfl <;> first | exact c2 | trivial)
+  ino2 (by unfold DataReader.ConsIno DataReader.Cons; decide) 1 5
 
 /-- the stream with `fixes/C10-stream-frag-fail.patch`: a `get_buffered_data` that fails leaves the stream at its
 end — whatever is asked afterwards, on whatever reader state, the answer is "end of file" (D33 closed) -/
@@ -203,6 +338,16 @@ theorem stream_fail_stops (f : File) (unc : Codec) (d d' : DataReader.DR) (s : D
       | ok mem s' => cases h
       | fail e' => exact key _
       | early e' => exact key _
+
+/-- instances, one per failure path of `get_buffered_data`: (1) the first data block is unreadable (`goto fail`);
+(2) a file that is only a tail end whose fragment block is unreadable (the `early` return) -/
+example : (DataReader.streamGet true badData toyUnc (DataReader.fresh 8 exTbl) (DataReader.streamOpen 8 exIno)).1 = .err errIo ∧
+    (DataReader.streamGet true badFrag toyUnc (DataReader.fresh 8 exTbl) (DataReader.streamOpen 8 inoFragOnly)).1 = .err errIo := by
+  decide +kernel
+example := stream_fail_stops badData toyUnc (DataReader.fresh 8 exTbl) (DataReader.fresh 8 exTbl)
+  (DataReader.streamOpen 8 exIno) errIo (by decide +kernel)
+example := stream_fail_stops badFrag toyUnc (DataReader.fresh 8 exTbl) (DataReader.fresh 8 exTbl)
+  (DataReader.streamOpen 8 inoFragOnly) errIo (by decide +kernel)
 
 /-! #### the alternative APIs for reading file data agree on every file the library itself wrote
 
@@ -258,6 +403,10 @@ theorem prog_history_independent {α : Type} (f : File) (unc : Codec) (hc : Code
   obtain ⟨e1, e2⟩ := exec_obs hc p noneYet _ _ (rel_used_fresh hc w hw h) hp
   exact ⟨e1, fun k => (e2 k).1⟩
 
+-- a three-call seek-first program on readers with failing histories
+example := prog_history_independent (α := Bytes) exImg toyUnc toyUnc_ok exWin (by intro k; unfold exWin; split <;> decide)
+  exHist (.seek 0 0 0 (.read 0 4 fun b => .pos 0 fun _ => .ret b)) (by simp [C10P.WF])
+
 /-- **Clients.**  A chain of seek-first calls — each chosen from the answers to the earlier ones — has the same
 outcome on used readers with arbitrary foreign histories `hs` happening on the same objects *between* its calls
 as on fresh readers without any interleaving. -/
@@ -265,6 +414,13 @@ theorem session_history_independent {α β : Type} (f : File) (unc : Codec) (hc 
     (hw : ∀ k, (w k).2 ≤ NONE) (h : Nat → List Op) (s : Session α β) (hs : s.WF) (between : List (Nat → List Op)) :
     (s.runI true f unc (usedFam f unc w h) between).1 = (s.runI true f unc (freshFam w) []).1 :=
   session_obs hc s _ _ _ _ (rel_used_fresh hc w hw h) hs
+
+/-- instance: a hand-made two-call session (`s.WF` discharged), two foreign histories interleaved between its calls -/
+example := session_history_independent (α := Bytes) (β := Nat) exImg toyUnc toyUnc_ok exWin
+  (by intro k; unfold exWin; split <;> decide) exHist
+  (.call (.seek 0 0 0 (.read 0 4 fun b => .pos 0 fun _ => .ret b)) fun _ =>
+    .call (.seek 1 54 0 (.read 1 8 fun b => .ret b)) fun _ => .done 1)
+  (by simp [Session.WF, C10P.WF]) [exHist, exHist]
 
 /-- inode by reference: `sqfs_dir_reader_get_inode` (= `sqfs_meta_reader_read_inode` on `meta_inode`) -/
 theorem inode_by_ref_history_independent (f : File) (unc : Codec) (hc : CodecOK unc) (w : Nat → Nat × Nat)
@@ -331,10 +487,17 @@ theorem listing_fuel_suffices (f : File) (unc : Codec) (hc : CodecOK unc) (S : R
           · cases hod
       | ok it => exact listGoP_fuel hc d _ it [] S' hco (by omega)
 
+-- `hS` discharged by `coherent_run`: the used readers of the Part 3 image
+example := listing_fuel_suffices exImg toyUnc toyUnc_ok (usedFam exImg toyUnc exWin exHist)
+  (fun k => coherent_run exImg toyUnc toyUnc_ok _ _ (by unfold exWin; split <;> decide) _) exDir 20
+
 /-- … nor that of the path resolution model (every component consumes at least one byte of the path) -/
 theorem path_fuel_suffices (f : File) (unc : Codec) (hc : CodecOK unc) (S : Readers) (hS : ∀ k, Coherent f unc (S k))
     (d : DirRd) (path : Bytes) : (exec true f unc (d.resolveP path) S).1 ≠ .error loopFuelSt :=
   resolveGoP_fuel hc d _ path d.rootRef S hS (by omega)
+
+example := path_fuel_suffices exImg toyUnc toyUnc_ok (usedFam exImg toyUnc exWin exHist)
+  (fun k => coherent_run exImg toyUnc toyUnc_ok _ _ (by unfold exWin; split <;> decide) _) exDir [0x2f, 0x61]
 
 /-- xattr descriptor: `sqfs_xattr_reader_get_desc` -/
 theorem xattr_desc_history_independent (f : File) (unc : Codec) (hc : CodecOK unc) (w : Nat → Nat × Nat)
@@ -388,45 +551,17 @@ theorem ool_position_restored {β : Type} (f : File) (unc : Codec) (hc : CodecOK
       exact ⟨hS k, hS k, rfl, rfl, fun _ => Or.inl (Sim.refl _)⟩
   exact ((exec_obs hc q _ _ _ hR hq).1).symm
 
+/-- instance with **all** hypotheses discharged: `hS` from `coherent_seek`/`coherent_init`, `hool`, and `hok` (the
+out-of-line value `vv` is delivered) -/
+example := ool_position_restored (β := Nat) exKv toyUnc toyUnc_ok exXr 0x100 (by decide) exS
+  (by
+    intro k; unfold exS; split
+    · exact coherent_seek _ _ toyUnc_ok _ (coherent_init _ _ _ _ (by decide)) _ _
+    · exact coherent_init _ _ _ _ (by decide))
+  [0x76, 0x76] (by decide +kernel)
+
 /-! ### the hypotheses are satisfiable, the statements are not vacuous -/
 
-/-- the toy codec of the harness meets the contract -/
-theorem toyUnc_ok : CodecOK toyUnc := by
-  constructor
-  · intro x n out h
-    unfold toyUnc at h
-    split at h
-    · split at h
-      · cases h; assumption
-      · cases h
-    · split at h
-      · cases h; simpa using ‹_›
-      · cases h
-    · simp only at h
-      split at h
-      · cases h; simpa using ‹_›
-      · cases h
-    · cases h
-  · intro x n e h
-    unfold toyUnc at h
-    split at h
-    · split at h
-      · cases h
-      · cases h; decide
-    · split at h
-      · cases h
-      · cases h; decide
-    · simp only at h
-      split at h
-      · cases h
-      · cases h; decide
-    · cases h; decide
-
-
-/-- block A "abcd" at 0, block B "xy" at 6 (both stored uncompressed) -/
-private def exFile : File :=
-  { size := 10, byte := fun i => ([0x04, 0x80, 0x61, 0x62, 0x63, 0x64, 0x02, 0x80, 0x78, 0x79] : List UInt8).getD i 0,
-    bad := fun _ => false }
 
 /-- an instance of `meta_history_independent` with a failing seek in the history and data in the answer -/
 example : answer true exFile toyUnc (run true exFile toyUnc (fresh 0 10) [.seek 0 0, .seek 6 3]) 0 0 [2, 2, 1]
@@ -436,22 +571,6 @@ example : answer true exFile toyUnc (run true exFile toyUnc (fresh 0 10) [.seek 
 example : (10 : Nat) ≤ NONE := by decide
 
 /-! #### Part 3 instances -/
-
-/-- inode table at 0: one raw block with a FIFO inode (reference 0) and the root directory inode (reference 20);
-directory table at 54: one raw block with the listing `a -> FIFO` -/
-private def exImg : File :=
-  { size := 77,
-    byte := fun i => ([0x34, 0x80,
-      0x06, 0x00, 0xA4, 0x01, 0, 0, 0, 0, 0, 0, 0, 0, 0x02, 0, 0, 0, 0x01, 0, 0, 0,
-      0x01, 0x00, 0xED, 0x01, 0, 0, 0, 0, 0, 0, 0, 0, 0x01, 0, 0, 0, 0, 0, 0, 0, 0x02, 0, 0, 0, 0x18, 0, 0, 0, 0, 0, 0, 0,
-      0x15, 0x80,
-      0, 0, 0, 0, 0, 0, 0, 0, 0x02, 0, 0, 0, 0, 0, 0, 0, 0x06, 0, 0, 0, 0x61] : List UInt8).getD i 0,
-    bad := fun _ => false }
-
-private def exDir : DirRd := { inodeStart := 0, dirStart := 54, rootRef := 20, blockSize := 4096 }
-private def exWin : Nat → Nat × Nat := fun k => if k = 0 then (0, 54) else (54, 77)
-/-- histories with failures: `meta_inode` was sent to a bad offset, `meta_dir` into the middle of the listing -/
-private def exHist : Nat → List Op := fun k => if k = 0 then [.seek 0 0, .seek 0 100, .read 3] else [.seek 54 3, .read 50]
 
 example : ∀ k, (exWin k).2 ≤ NONE := by
   intro k; unfold exWin; split <;> decide
@@ -465,20 +584,6 @@ example : (match (exec true exImg toyUnc (exDir.getInodeP 0) (usedFam exImg toyU
     | .ok i => decide (i = { typ := 6, mode := 0o010644, uid := 0, gid := 0, mtime := 0, inum := 2, fields := [1], extra := [] })
     | .error _ => false) = true := by decide +kernel
 
-/-- key/value block at 0: the value record "vv", key `user.k` whose value is out of line (reference 0 = that
-record), key `user.j` with the inline value "w" -/
-private def exKv : File :=
-  { size := 35,
-    byte := fun i => ([0x21, 0x80,
-      0x02, 0, 0, 0, 0x76, 0x76,
-      0x00, 0x01, 0x01, 0x00, 0x6b,  0x08, 0, 0, 0,  0, 0, 0, 0, 0, 0, 0, 0,
-      0x00, 0x00, 0x01, 0x00, 0x6a,  0x01, 0, 0, 0, 0x77] : List UInt8).getD i 0,
-    bad := fun _ => false }
-
-private def exXr : XR := { loaded := true, xattrStart := 0, xattrEnd := 35, numIds := 0, idBlockStarts := [] }
-/-- both readers over the whole image; the key/value reader stands right behind the key `user.k` -/
-private def exS : Readers := fun k => if k = 1 then (seek true exKv toyUnc (fresh 0 35) 0 11).2 else fresh 0 35
-
 /-- the hypothesis of `ool_position_restored` is satisfiable: the out-of-line value is delivered … -/
 example : (match (exec true exKv toyUnc (exXr.readValueApiP 0x100) exS).1 with
     | .ok v => decide (v = [0x76, 0x76]) | .error _ => false) = true := by decide +kernel
@@ -488,14 +593,6 @@ example : (match (exec true exKv toyUnc (exXr.readPairsP 1 []) (exec true exKv t
     | .ok l => decide (l = [("user.j".toUTF8.toList, [0x77])]) | .error _ => false) = true := by decide +kernel
 
 example : (0x100 : Nat) / xattrFlagOol % 2 = 1 := by decide
-
-/-- a written file of 19 bytes with block size 8: a raw block at 0, a compressed block at 8 (`03 08 00 55`: eight
-times `55`), and a 3-byte tail at offset 1 of the raw 5-byte fragment block at 12 -/
-private def exData : File :=
-  { size := 17, byte := fun i => ([1, 2, 3, 4, 5, 6, 7, 8, 3, 8, 0, 0x55, 0xa0, 0xa1, 0xa2, 0xa3, 0xa4] : List UInt8).getD i 0,
-    bad := fun _ => false }
-private def exIno : DataReader.Inode := { fileSize := 19, blocksStart := 0, fragIdx := 0, fragOff := 1, blocks := [16777224, 4] }
-private def exTbl : List (Nat × Nat) := [(12, 16777221)]
 
 /-- `Written` is satisfiable (so `read_eq_blocks_plus_fragment` and `stream_eq_read` are not vacuous) -/
 example : DataReader.Written exData toyUnc 8 exTbl exIno [[1, 2, 3, 4, 5, 6, 7, 8], List.replicate 8 0x55] [0xa1, 0xa2, 0xa3] where
